@@ -93,8 +93,13 @@ def _generate(qual):
 
 def _to_smt2(ob):
     import z3
+    from pyvc.core import str_axioms
     s = z3.Solver()
-    for h in ob.hyps:
+    hyps = list(ob.hyps) + str_axioms()        # distinctness of the string literals met during generation travels with the obligation
+    names = ob.meta.get("hyp_names")
+    if names is not None:
+        ob.meta["hyp_names"] = list(names) + [None] * (len(hyps) - len(names))
+    for h in hyps:
         s.add(h)
     s.add(z3.Not(ob.goal))
     return s.to_smt2()
